@@ -172,11 +172,11 @@ def _run(V, work, tier):
     # calls made through a blocking boundary (macro body during expansion, nested load, handler-bind,
     # ignore-errors) are never collapsed: exactly linear height
     bl = []
-    for kind in ("macro-body", "load-string", "handler-bind", "ignore-errors"):
+    for kind in ("macro-body", "load-string", "handler-bind", "ignore-errors", "handler-call"):
         for n in (3, 4, 30, 31):
             bl.append({"id": "%s/%d" % (kind, n), "seq": [P.src(P.boundary_loop(kind, n))], "cfgs": [{}, {"tro": "off"}]})
     blr = {r["id"]: r for r in driver_json(binary, ["run"], bl)}
-    for kind in ("macro-body", "load-string", "handler-bind", "ignore-errors"):
+    for kind in ("macro-body", "load-string", "handler-bind", "ignore-errors", "handler-call"):
         hs = []
         for n in (3, 4, 30, 31):
             ev = blr["%s/%d" % (kind, n)]["runs"][0]["evals"][0]
